@@ -45,7 +45,7 @@ Ltac cl5 :=
 
 Lemma inv5_step s a s' : Inv1 s -> Inv3 s -> Inv5 s -> stepF s a = Some s' -> Inv5 s'.
 Proof.
-  intros [Ipl Ihun Ihcn Ihtm Irun Isusp Iwk [Inn Ine] Ipre Icd] I3 [Un Kn Tu To] H.
+  intros [Ipl Ihun Ihcn Ihtm Irun Isusp Iwk [Inn Ine] Ipre Icd ((Id1 & Id2 & Id3 & Id4) & Iok & Itn)] I3 [Un Kn Tu To] H.
   pose proof (t0 s I3) as T0. clear I3.
   destruct a.
   all: step_inv H.
